@@ -148,13 +148,26 @@ fn loopback(r: &mut Rng) -> &'static str {
     }
 }
 
-/// Socket file name: every fifth case one that is not valid UTF-8 (paths are bytes on this platform).
+/// Socket file name: every fifth case one that is not valid UTF-8 (paths are bytes on this platform), every fifth one
+/// whose first byte means something special elsewhere (abstract-namespace marker `@`, option dash, tilde, comment sign,
+/// blank, percent, colon) - to a Unix socket sink a path is a path.
 fn sock_name(r: &mut Rng) -> std::ffi::OsString {
     use std::os::unix::ffi::OsStringExt;
-    if r.chance(1, 5) {
-        std::ffi::OsString::from_vec(b"t\xe9rg\xff\xfe.sock".to_vec())
+    match r.below(5) {
+        0 => std::ffi::OsString::from_vec(b"t\xe9rg\xff\xfe.sock".to_vec()),
+        1 | 2 => (*r.pick(&["@statsd.sock", "-target.sock", "~target.sock", "#target.sock", " target.sock", "%40target.sock", ":target.sock", "@", "tar get\n.sock", "unix:target.sock"])).into(),
+        _ => "target.sock".into(),
+    }
+}
+
+/// `dir/name`, or - when the sink is addressed relative to the working directory - half of the time the bare name
+/// (so that the path's first byte is the name's first byte).
+fn sock_path(r: &mut Rng, dir: &std::path::Path, relative: bool) -> PathBuf {
+    let name = sock_name(r);
+    if relative && r.chance(2, 3) {
+        PathBuf::from(name)
     } else {
-        "target.sock".into()
+        dir.join(name)
     }
 }
 
@@ -219,7 +232,10 @@ fn case_unbuffered(cx: &mut Cx, cs: u64) {
     let udp_decoy = UdpSocket::bind(lo).unwrap();
     udp_recv.set_read_timeout(Some(Duration::from_millis(500))).unwrap();
     udp_decoy.set_nonblocking(true).unwrap();
-    let unix_path = dir.join(sock_name(&mut r));
+    let unix_path = sock_path(&mut r, &dir, relative);
+    if unix_path.as_os_str().as_encoded_bytes().first().map(|b| !b.is_ascii_alphanumeric() && *b != b'/' && *b != b'.').unwrap_or(false) {
+        cx.rep.obs("unix_socket_paths_starting_with_a_special_byte", 1);
+    }
     let unix_decoy_path = dir.join("decoy.sock");
     let unix_recv = UnixDatagram::bind(&unix_path).unwrap();
     let unix_decoy = UnixDatagram::bind(&unix_decoy_path).unwrap();
@@ -380,7 +396,25 @@ fn case_buffered(cx: &mut Cx, cs: u64) {
     let default_cap = r.chance(1, 5);
     // capacities above what one datagram can carry are legal too (UDP: 65507 bytes; the kernel then refuses with EMSGSIZE)
     let cap = if default_cap { 512 } else if r.chance(1, 6) { *r.pick(&[66000usize, 70000, 100000]) } else { *r.pick(&[0usize, 1, 8, 40, 100, 512, 1432, 9000]) };
+    let relative = !udp && r.chance(1, 4);
     let dir = fresh_dir();
+    let old_cwd = std::env::current_dir().ok();
+    if relative {
+        std::env::set_current_dir(&dir).expect("chdir into the run dir");
+        cx.rep.obs("buffered_unix_sinks_addressed_by_relative_path", 1);
+    }
+    // at the end of the case: back to the old working directory, run directory removed
+    struct Back(Option<PathBuf>, PathBuf);
+    impl Drop for Back {
+        fn drop(&mut self) {
+            if let Some(d) = &self.0 {
+                let _ = std::env::set_current_dir(d);
+            }
+            let _ = std::fs::remove_dir_all(&self.1);
+        }
+    }
+    let _back = Back(if relative { old_cwd } else { None }, dir.clone());
+    let dir = if relative { PathBuf::from(".") } else { dir };
     cx.rep.eval();
     let lo = loopback(&mut r);
     if udp && lo.starts_with('[') {
@@ -388,7 +422,10 @@ fn case_buffered(cx: &mut Cx, cs: u64) {
     }
     let udp_recv = UdpSocket::bind(lo).unwrap();
     udp_recv.set_read_timeout(Some(Duration::from_millis(500))).unwrap();
-    let unix_path = dir.join(sock_name(&mut r));
+    let unix_path = sock_path(&mut r, &dir, relative);
+    if unix_path.as_os_str().as_encoded_bytes().first().map(|b| !b.is_ascii_alphanumeric() && *b != b'/' && *b != b'.').unwrap_or(false) {
+        cx.rep.obs("unix_socket_paths_starting_with_a_special_byte", 1);
+    }
     let unix_recv = UnixDatagram::bind(&unix_path).unwrap();
     unix_recv.set_read_timeout(Some(Duration::from_millis(500))).unwrap();
     // kernel-made faults: a non-blocking Unix socket whose receiver does not read => EAGAIN once the queue is full
@@ -612,7 +649,6 @@ fn case_buffered(cx: &mut Cx, cs: u64) {
                     jobj! {"embodiment" => label, "capacity" => cap, "history" => Json::Arr(hist)},
                     cs,
                 );
-                let _ = std::fs::remove_dir_all(dir);
                 return;
             }
         }
@@ -684,7 +720,6 @@ fn case_buffered(cx: &mut Cx, cs: u64) {
         cx.rep.sample(|| jobj! {"embodiment" => label, "capacity" => cap, "outcomes" => sig.as_str(), "history" => hist(&steps[..steps.len().min(6)])});
     }
     let _ = received;
-    let _ = std::fs::remove_dir_all(dir);
 }
 
 // ------------------------------------------------------------------------------------------------
